@@ -2,6 +2,7 @@ package sim
 
 import (
 	"bytes"
+	"context"
 	"crypto/x509"
 	"encoding/base64"
 	"encoding/json"
@@ -39,6 +40,7 @@ type c20Op struct {
 	Remote    bool
 	WithTSA   bool // valid sign with a (valid) timestamp
 	EarlyHow  int  // 0 empty payload, 1 no signing time, 2 expiry before signing time, 3 nil signer, 4 no scheme, 5 payload not JSON (jws)
+	CtxDone   bool // the request carries an already cancelled context (WithContext)
 	Reenter   bool // sign failing late: its remote signer re-entrantly signs the other request successfully on the same object
 	SignerHow int  // RSError / RSNoCerts / RSKeySpecError
 	LateHow   int  // 0 signing time before notBefore, 1 after notAfter
@@ -52,6 +54,8 @@ type c20Scenario struct {
 	KeyA     string
 	KeyB     string
 	Ops      []c20Op
+	PayA     int // payload variants (top-level members with JWT claim names)
+	PayB     int
 }
 
 func genC20(t *Tape) *c20Scenario {
@@ -61,6 +65,8 @@ func genC20(t *Tape) *c20Scenario {
 	sc.StartReq = t.Choose(2)
 	sc.KeyA = signKeyKinds[t.Weighted(55, 10, 5, 20, 7, 3)]
 	sc.KeyB = signKeyKinds[t.Weighted(55, 10, 5, 20, 7, 3)]
+	sc.PayA = t.Weighted(60, 8, 8, 8, 8, 8)
+	sc.PayB = t.Weighted(60, 8, 8, 8, 8, 8)
 	n := 1 + t.Weighted(8, 18, 22, 22, 18, 12)
 	for i := 0; i < n; i++ {
 		op := c20Op{}
@@ -70,6 +76,7 @@ func genC20(t *Tape) *c20Scenario {
 		op.WithTSA = t.Bool(20)
 		op.EarlyHow = t.Choose(7)
 		op.Reenter = t.Bool(15)
+		op.CtxDone = t.Bool(10)
 		op.SignerHow = 1 + t.Choose(3)
 		op.LateHow = t.Choose(2)
 		op.TSAHow = t.Choose(4)
@@ -217,8 +224,8 @@ func (sc *c20Scenario) exec(obs *c20Obs, st *Stats) {
 		return
 	}
 	reqs := []*c20Req{
-		{Name: "A", Payload: testPayload(1), Chain: chA, Scheme: signature.SigningSchemeX509, Attr: signature.Attribute{Key: "io.sim.request", Critical: false, Value: "A"}, Agent: "sim-agent/A"},
-		{Name: "B", Payload: testPayload(2), Chain: chB, Scheme: signature.SigningSchemeX509, Attr: signature.Attribute{Key: "io.sim.request", Critical: true, Value: "B"}, Agent: "sim-agent/B", Expiry: true},
+		{Name: "A", Payload: testPayloadKind(1, sc.PayA), Chain: chA, Scheme: signature.SigningSchemeX509, Attr: signature.Attribute{Key: "io.sim.request", Critical: false, Value: "A"}, Agent: "sim-agent/A"},
+		{Name: "B", Payload: testPayloadKind(2, sc.PayB), Chain: chB, Scheme: signature.SigningSchemeX509, Attr: signature.Attribute{Key: "io.sim.request", Critical: true, Value: "B"}, Agent: "sim-agent/B", Expiry: true},
 	}
 	// a small honest authority
 	tsaRoot, err := Issue(&CertSpec{CN: "c20-tsa-root", Key: ka.get("ec256"), IsCA: true, KeyUsage: x509.KeyUsageCertSign, NotBefore: Epoch.Add(-365 * 24 * time.Hour), NotAfter: Epoch.Add(3650 * 24 * time.Hour), MaxPathLen: -1}, nil)
@@ -555,10 +562,18 @@ func (sc *c20Scenario) exec(obs *c20Obs, st *Stats) {
 						serr = fmt.Errorf("panic: %v", rec)
 					}
 				}()
+				if op.CtxDone {
+					cctx, ccancel := context.WithCancel(context.Background())
+					ccancel()
+					sr = sr.WithContext(cctx)
+				}
 				b, serr = env.Sign(sr)
 			}()
 			if op.Kind == EOSignFailLate && op.Reenter {
 				how += "+reentrant_sign_" + nestedName
+			}
+			if op.CtxDone {
+				how += "+context_already_cancelled"
 			}
 			st.Probes["c20_"+envOpNames[op.Kind]]++
 			logf("op %d %s(%s,%s,remote=%v) -> err=%v bytes=%v", oi, envOpNames[op.Kind], r.Name, how, op.Remote, errKind(serr), b != nil)
@@ -683,12 +698,12 @@ func describeC20(sc *c20Scenario) any {
 	for i, op := range sc.Ops {
 		s := fmt.Sprintf("%d:%s", i, envOpNames[op.Kind])
 		if op.Kind < EOVerify {
-			s += fmt.Sprintf("(req=%s remote=%v tsa=%v early=%d signer=%d late=%d reenter=%v tsahow=%d)", []string{"A", "B"}[op.Req], op.Remote, op.WithTSA, op.EarlyHow, op.SignerHow, op.LateHow, op.Reenter, op.TSAHow)
+			s += fmt.Sprintf("(req=%s remote=%v tsa=%v early=%d signer=%d late=%d reenter=%v ctxdone=%v tsahow=%d)", []string{"A", "B"}[op.Req], op.Remote, op.WithTSA, op.EarlyHow, op.SignerHow, op.LateHow, op.Reenter, op.CtxDone, op.TSAHow)
 		}
 		ops = append(ops, s)
 	}
 	return map[string]any{"format": []string{"jws", "cose"}[sc.Format], "start": []string{"new", "parsed_valid", "parsed_tampered"}[sc.Start], "start_request": []string{"A", "B"}[sc.StartReq],
-		"key_a": sc.KeyA, "key_b": sc.KeyB, "ops": ops}
+		"key_a": sc.KeyA, "key_b": sc.KeyB, "payload_variant_a": sc.PayA, "payload_variant_b": sc.PayB, "ops": ops}
 }
 
 func runC20(t *Tape, st *Stats, tier string) *RunResult {
